@@ -9,7 +9,7 @@
 From Coq Require Import QArith Qreals Reals List Bool.
 From Bignums Require Import BigQ.
 From MSDM Require Import base.Num base.NumInst model.MDP model.POMDP model.PBVI theory.Bellman
-     theory.PBVITheory theory.PBVITransfer theory.PBVIMain theory.PBVIExample.
+     theory.PBVITheory theory.PBVITransfer theory.PBVIMain theory.PBVIExample theory.PBVIFullObs.
 Local Open Scope R_scope.
 
 Theorem C08_pbvi_lower :
@@ -102,9 +102,8 @@ Proof. exact qmdp_action_value_def. Qed.
 Print Assumptions C08_qmdp_action_value_def.
 
 (* every observation reveals the state: the optimum IS the QMDP value (finite horizon and limit).
-   PARTIAL with respect to the property text: the PBVI half ("PBVI coincides too") is only the upper
-   bound C08_pbvi_le_Wstar; equality needs the belief set to be closed under successors, which the
-   harness tests per case (chk_fullobs_ge) but which is not proved here. *)
+   This is the QMDP half; the PBVI half is C08_fully_observable_pbvi below (the name _partial is kept for
+   stability of references: this theorem alone covers only QMDP). *)
 Theorem C08_fully_observable_partial :
   forall (p : pomdp R) tO rM, wfp p tO rM -> fullobs p ->
   (forall k u, nonneg p u ->
@@ -117,6 +116,50 @@ Proof.
   - intros M Vs u Ws. apply (fullobs_Wstar_eq_qmdp p tO rM W F).
 Qed.
 Print Assumptions C08_fully_observable_partial.
+
+(* the PBVI half of the fully observable clause, for the MODEL of point_based_value_iteration:
+   observations reveal the state (fullobs) and the belief list B is non-negative and closed under the
+   successor map (closedb: for every b in B, action a and observation o of positive mass, the vertex e_o is
+   in B) ==> after the j sweeps the run made — any horizon cap, thresholds, tie-breaking — the PBVI value at
+   EVERY point of B (vertex or not) is exactly the j-horizon optimum, hence within the geometric tail of W*.
+   Together with C08_fully_observable_partial (optimum = QMDP value) this closes the clause for the model;
+   the tie to msdm's own vectors is the mirror comparison (C08_msdm_pbvi_upper's hypothesis). *)
+Theorem C08_fully_observable_pbvi :
+  forall (p : pomdp R) tO rM, wfp p tO rM -> fullobs p ->
+  forall B, closedb p tO B = true ->
+  forall horizon amb eps, let r := pbvi_run p tO rM horizon amb eps B in
+  forall i, (i < length B)%nat ->
+    alpha_value p (fst (fst r)) (untab (nth i B nil)) = Some (Wopt p tO rM (snd (fst r)) (untab (nth i B nil))) /\
+    forall M Ws x, is_Wstar p tO rM M (untab (nth i B nil)) Ws ->
+      alpha_value p (fst (fst r)) (untab (nth i B nil)) = Some x ->
+      Rabs (x - Ws) <= tailR p M (snd (fst r)) (untab (nth i B nil)).
+Proof.
+  intros p tO rM W F B HB horizon amb eps r i Hi. split.
+  - apply (fullobs_pbvi_value p tO rM W F B HB horizon amb eps i Hi).
+  - intros M Ws x. apply (fullobs_pbvi_near_Wstar p tO rM W F B HB M horizon amb eps i Ws x Hi).
+Qed.
+Print Assumptions C08_fully_observable_pbvi.
+
+(* the same with the hypotheses as the three booleans the harness evaluates per case on exact rationals *)
+Theorem C08_fully_observable_pbvi_checked :
+  forall nS nA nO ab P Rw ini g Obl B horizon amb eps,
+  @wfpomdpb Q NumQ (pA Q NumQ nS nA nO P Rw ab ini g Obl) = true ->
+  @fullobsb Q NumQ (pA Q NumQ nS nA nO P Rw ab ini g Obl) = true ->
+  @closedF Q NumQ (pA Q NumQ nS nA nO P Rw ab ini g Obl) B = true ->
+  let p := pR Q Q2R nS nA nO P Rw ab ini g Obl in
+  let r := pbvi_run p (tO_tab p) (rM_tab p) horizon amb eps (m2 Q Q2R B) in
+  forall i, (i < length B)%nat ->
+    alpha_value p (fst (fst r)) (untab (nth i (m2 Q Q2R B) nil)) =
+    Some (Wopt p (tO_tab p) (rM_tab p) (snd (fst r)) (untab (nth i (m2 Q Q2R B) nil))).
+Proof. exact main_fullobs_pbvi. Qed.
+Print Assumptions C08_fully_observable_pbvi_checked.
+
+Theorem C08_fully_observable_pbvi_nonvacuous :
+  @wfpomdpb Q NumQ (pA Q NumQ 3 2 3 foP foR foAb foIni (1#2)%Q foO) = true /\
+  @fullobsb Q NumQ (pA Q NumQ 3 2 3 foP foR foAb foIni (1#2)%Q foO) = true /\
+  @closedF Q NumQ (pA Q NumQ 3 2 3 foP foR foAb foIni (1#2)%Q foO) foB = true.
+Proof. exact fo_hyps. Qed.
+Print Assumptions C08_fully_observable_pbvi_nonvacuous.
 
 (* end to end on msdm's output: the mirror (bigQ) accepted msdm's alpha vectors within tol *)
 Theorem C08_msdm_pbvi_upper :
